@@ -59,7 +59,7 @@ type chainGen struct {
 }
 
 var spendableScripts = [][]byte{{0x51}, {0x51}, {0x51}, {0x52}, {0x53}, {0x01, 0x51}, {0x02, 0xab, 0xcd}, {0x60}}
-var deadScripts = [][]byte{{0x6a}, {0x6a, 0x04, 1, 2, 3, 4}, {0x4c}, {0x05, 0xaa, 0xbb}, {0x4d, 0x01}, {0x4e, 1, 0, 0}, nil, {0x00}}
+var deadScripts = [][]byte{{0x6b}, {0x69}, {0x6a}, {0x6a, 0x04, 1, 2, 3, 4}, {0x4c}, {0x05, 0xaa, 0xbb}, {0x4d, 0x01}, {0x4e, 1, 0, 0}, nil, {0x00}}
 
 func isOurs(s []byte) bool { // can the generator spend it with an empty signature script?
 	for _, x := range spendableScripts {
